@@ -180,15 +180,22 @@ Section Step.
     | SkipRep e => arep_c loopfuel false e pos st
     end.
 
-  (* the `skipped: [Skip; SKIP]` array in front of an element *)
-  Definition pre_skip_p (b : bool) (pos : nat) (st : state) : res (nat * list tnode) :=
+  (* `Skip::default()` *)
+  Definition skip_default : tnode :=
+    match e_skip E with SkipEmpty => NEmpty | SkipRep _ => NAtomicRep [] end.
+
+  (* the `skipped: [Skip; SKIP]` array in front of an element: SKIP = 0 gives an empty array;
+     SKIP = 1 gives one entry, a default value where no skipping is done (first element / iteration 0) *)
+  Definition pre_skip_p (b doit : bool) (pos : nat) (st : state) : res (nat * list tnode) :=
     if b then
-      match skip_p pos st with
-      | Ok (pos', t) st' => Ok (pos', [t]) st'
-      | Fail st' => Fail st'
-      | Panic => Panic
-      | Fuel => Fuel
-      end
+      if doit then
+        match skip_p pos st with
+        | Ok (pos', t) st' => Ok (pos', [t]) st'
+        | Fail st' => Fail st'
+        | Panic => Panic
+        | Fuel => Fuel
+        end
+      else Ok (pos, [skip_default]) st
     else Ok (pos, []) st.
 
   Definition pre_skip_c (b : bool) (pos : nat) (st : state) : res nat :=
@@ -201,7 +208,7 @@ Section Step.
     match es with
     | [] => Ok (pos, NSeq (rev acc)) st
     | e :: es' =>
-        match pre_skip_p (negb first && b) pos st with
+        match pre_skip_p b (negb first) pos st with
         | Ok (pos1, skipped) st1 =>
             match P inh e pos1 st1 with
             | Ok (pos2, t) st2 => seq_p b inh es' false pos2 st2 ((skipped, t) :: acc)
@@ -235,13 +242,13 @@ Section Step.
 
   (* ---------------- choice (choices.rs) ---------------- *)
 
-  Fixpoint choice_p (inh : bool) (es : list texpr) (i : nat) (pos : nat) (st : state) : res (nat * tnode) :=
+  Fixpoint choice_p (inh : bool) (n : nat) (es : list texpr) (i : nat) (pos : nat) (st : state) : res (nat * tnode) :=
     match es with
     | [] => Fail st
     | e :: es' =>
         match ron E (P inh e pos) st with
-        | Ok (pos', t) st' => Ok (pos', NChoice i t) st'
-        | Fail st' => choice_p inh es' (S i) pos st'
+        | Ok (pos', t) st' => Ok (pos', NChoice n i t) st'
+        | Fail st' => choice_p inh n es' (S i) pos st'
         | Panic => Panic
         | Fuel => Fuel
         end
@@ -264,7 +271,7 @@ Section Step.
   (* try_parse_unit: skip only when i > 0 *)
   Definition unit_p (b inh : bool) (e : texpr) (i : nat) (pos : nat) (st : state)
     : res (nat * (list tnode * tnode)) :=
-    match pre_skip_p (b && negb (i =? 0)%nat) pos st with
+    match pre_skip_p b (negb (i =? 0)%nat) pos st with
     | Ok (pos1, skipped) st1 =>
         match P inh e pos1 st1 with
         | Ok (pos2, t) st2 => Ok (pos2, (skipped, t)) st2
@@ -285,6 +292,8 @@ Section Step.
     | Fuel => Fuel
     end.
 
+  Definition bounded (mx : option nat) : bool := match mx with Some _ => true | None => false end.
+
   Definition below (i : nat) (mx : option nat) : bool :=
     match mx with None => true | Some m => (i <? m)%nat end.
 
@@ -297,14 +306,14 @@ Section Step.
       | S n' =>
           match ron E (unit_p b inh e i pos) st with
           | Ok (pos', it) st' => rep_p n' b inh mn mx e (S i) pos' st' (it :: acc)
-          | Fail st' => if (i <? mn)%nat then Fail st' else Ok (pos, NRep (rev acc)) st'
+          | Fail st' => if (i <? mn)%nat then Fail st' else Ok (pos, NRep (bounded mx) (rev acc)) st'
           | Panic => Panic
           | Fuel => Fuel
           end
       end
     else
       (* loop left by exhausting 0..MAX *)
-      if e_rep_min_after E && (i <? mn)%nat then Fail st else Ok (pos, NRep (rev acc)) st.
+      if e_rep_min_after E && (i <? mn)%nat then Fail st else Ok (pos, NRep (bounded mx) (rev acc)) st.
 
   Fixpoint rep_c (n : nat) (b inh : bool) (mn : nat) (mx : option nat) (e : texpr) (i : nat)
            (pos : nat) (st : state) : res nat :=
@@ -370,17 +379,17 @@ Section Step.
               lift (i_span I pos pos') (fun sp =>
               lift (span_str I sp) (fun txt =>
                 match dec1 txt with
-                | Some (c', _) => Ok (pos', NChar c') st
+                | Some (c', _) => Ok (pos', NChar CkRange c') st
                 | None => Panic
                 end))
           | None => Fail st
           end)
     | TAny =>
         lift (i_match_char I (fun _ => true) pos) (fun o =>
-          match o with Some (pos', c) => Ok (pos', NChar c) st | None => Fail st end)
+          match o with Some (pos', c) => Ok (pos', NChar CkAny c) st | None => Fail st end)
     | TCharBy p =>
         lift (i_match_char I (e_pred E p) pos) (fun o =>
-          match o with Some (pos', c) => Ok (pos', NChar c) st | None => Fail st end)
+          match o with Some (pos', c) => Ok (pos', NChar (CkProp p) c) st | None => Fail st end)
     | TSoi => if i_at_start I pos then Ok (pos, NSoi) st else Fail st
     | TEoi => if i_at_end I pos then Ok (pos, NEoi) st else Fail st
     | TNewline => newline_p newline_bytes pos st
@@ -391,7 +400,7 @@ Section Step.
         leaf_match (i_skip I n pos) st (fun pos' =>
           lift (i_span I pos pos') (fun _ => Ok (pos', NSpanned KSkipChar pos pos') st))
     | TSeq k es => seq_p (resolve k inh) inh es true pos st []
-    | TChoice es => choice_p inh es 0 pos st
+    | TChoice es => choice_p inh (length es) es 0 pos st
     | TOpt e1 =>
         match ron E (P inh e1 pos) st with
         | Ok (pos', t) st' => Ok (pos', NOpt (Some t)) st'
@@ -461,7 +470,7 @@ Section Step.
         | Some m =>
             lift m (fun sps =>
             leaf_match (peek_spans E sps pos) st (fun pos' =>
-              lift (i_span I pos pos') (fun _ => Ok (pos', NSlice) st)))
+              lift (i_span I pos pos') (fun _ => Ok (pos', NSlice (match b with Some _ => true | None => false end)) st)))
         end
     | TArr n e1 => arr_p n inh e1 pos st []
     | TPair a b =>
